@@ -121,7 +121,7 @@ def find_chunk_size(src, split, lazy):
     return None
 
 
-def run_program(src, pair, prog, lazy, chunk_K=None):
+def run_program(src, pair, prog, lazy, chunk_K=None, twin=False):
     """Apply prog to real tables. Returns (pool, outcomes) where outcomes[i] is ("ok", projected) | ("err", msg)
     for every operation after the read."""
     from bionumpy.bnpdataclass import replace
@@ -161,6 +161,9 @@ def run_program(src, pair, prog, lazy, chunk_K=None):
             r = outcome(do)
         elif name == "concat":
             u0 = pool[op["u"] - 1]
+            if twin and op["u"] == 1 and first["op"] == "read":
+                # the same entries read through a second reader object (the same file opened twice): an equal table of another lazy class
+                u0 = tk.open_table(src.fmt, src.data, lazy).read()
 
             def do():
                 u = np.concatenate([t, u0])
